@@ -225,11 +225,33 @@ fn run_seq(ops: &[SOp]) -> (Vec<Fail>, u64, u64, u64) {
                         };
                         out.push((sp, ms.len(), ys, represented, n2, rs));
                     }
-                    out
+                    // the e-nodes of a class, written with the caller's slots: a user slot below a binder stays the user's
+                    let mut problems: Vec<String> = Vec::new();
+                    let z = Slot::named("zz8");
+                    let vz = eg.add(Sym::Var(z));
+                    let va2 = eg.add(Sym::Var(a));
+                    let body = eg.add(Sym::B(vz, va2));
+                    let lam = eg.add(Sym::Lam(Bind { slot: z, elem: body }));
+                    for i in [id.clone(), lam.clone()] {
+                        for n in eg.enodes_applied(&i) {
+                            if n.slots() != i.slots() {
+                                problems.push(format!("enodes_applied({i:?}) returned {n:?} with slots {:?}, the invocation has {:?}", n.slots(), i.slots()));
+                                continue;
+                            }
+                            match eg.lookup(&n) {
+                                Some(j) if eg.eq(&j, &i) => {}
+                                other => problems.push(format!("enodes_applied({i:?}) returned {n:?}, which looks up as {other:?}")),
+                            }
+                        }
+                    }
+                    (out, problems)
                 });
                 match r {
                     Err(site) => fails.push(("panic".into(), "egraph match".into(), format!("{site}; sequence: {seq}"))),
-                    Ok(rows) => {
+                    Ok((rows, problems)) => {
+                        for pr in problems {
+                            fails.push(("internal-slot-captures-user-slot".into(), pr, format!("sequence: {seq}")));
+                        }
                         for (sp, n1, ys, represented, n2, rs) in rows {
                             if n1 != 1 || n2 != 1 {
                                 fails.push(("pattern-slot-spelling-matters".into(), format!("(b (var {sp}) ?y) has {n1} matches and ?o == (b ?l ?r), ?l == (var {sp}) has {n2} against the single term (b (var {a}) (var {b})); one each expected"), format!("sequence: {seq}")));
